@@ -218,7 +218,7 @@ PROPS = {
         "rule": "links: torus links T(2,5)..T(6,7) (odd and composite torsion; T(6,7) = 35 crossings), every 5th table diagram with <= 10 crossings (quick) / all <= 11, closures of random braid words (<= 11/14 letters, optionally one switched crossing); "
                 "for each link 14 real computations: bigraded tables by both library routes (homology of bigraded pieces / total homology split by generator q-degree) over i64, BigInt, i128, Ratio<i64>, FF2, FF<2>, FF<3>, reduced over i64 and FF2; "
                 "relations checked: two routes agree (Z, Q, F2, F3, reduced Z), i64 = i128 = BigInt, FF2 = FF<2>, rank_Q = free rank_Z, dim_Fp(i,j) = rank_Z(i,j) + #{p | torsion in (i,j)} + #{p | torsion in (i+1,j)}, "
-                "F2 unreduced = reduced (x) unknot; non-trivial = torsion present or >= 2 components; distinct = hash(PD, flags)",
+                "F2 unreduced = reduced (x) unknot; non-trivial = torsion present or >= 2 components; distinct = hash(PD, flags) For <= 9 crossings the Z and F3 tables are also assembled column by column from KhComplex::truncated(i-1..=i+1) windows and must equal the tables of the whole complex.",
         "assumptions": COMMON_ASSUME + ["the relations are necessary conditions between library results (no external oracle here; C01 ties the tables to the definition for small diagrams)", "finding keys include the link so that a different link failing the same relation is reported as a new violation"],
         "technique": "metamorphic / cross-configuration monitor: the same link computed over seven coefficient types and by two routes; universal-coefficient arithmetic evaluated by the monitor",
         "level_text": "Exploration: hundreds to thousands of links, each computed 14 ways; the relations of the statement are evaluated exactly on the results. Right level: the property relates configurations of real runs; the first known counterexample needs a 35-crossing input far beyond unit tests, which the torus family reaches.",
